@@ -75,3 +75,17 @@ def _is_exc(v, type_, func=None, line_has=None):
     if line_has is not None and line_has not in (e.get('line') or ''):
         return False
     return True
+
+
+# ---------------------------------------------------------------------------
+# C13
+
+@classifier('c13_fstring_error_node_reported_on_own_line')
+def _c13_fstring(v):
+    """F-C13-1: for grammars >= 3.9 an error node that contains an fstring_start or lies inside an
+    fstring is reported on the error node's own first line instead of on the following token's
+    line.  The node's own first line must carry an issue, so an unreported error node stays a
+    violation."""
+    d = v.get('detail') or {}
+    return v['kind'] == 'error_node_unreported' and d.get('fstring') is True and d.get('version_ge_39') is True \
+        and d.get('own_first_line_reported') is True
